@@ -711,11 +711,9 @@ func (e *Explorer) Run(script []string) *Trace {
 				return false
 			}
 			spins++
-			if spins < 200 {
-				// the server reacts within microseconds: yield first, sleep later
-				for k := 0; k < 4; k++ {
-					runtime.Gosched()
-				}
+			if spins < 2000 {
+				// the server reacts within microseconds: yield first, sleep later (a sleep costs ~1 ms here)
+				runtime.Gosched()
 			} else {
 				time.Sleep(20 * time.Microsecond)
 			}
@@ -832,6 +830,7 @@ func (e *Explorer) Run(script []string) *Trace {
 // established session, the Finished callback fired.
 func (e *Explorer) settle(tr *Trace, ca, cb *faultconn.Conn, afterDisconnect bool) {
 	deadline := time.Now().Add(3 * time.Second)
+	spins := 0
 	for {
 		closed, _ := cb.Closed()
 		est, fin := 0, 0
@@ -855,6 +854,10 @@ func (e *Explorer) settle(tr *Trace, ca, cb *faultconn.Conn, afterDisconnect boo
 			tr.add(Ev{T: "unsettled", Detail: fmt.Sprintf("%s; established=%d finished=%d", rsClosed, est, fin)})
 			return
 		}
-		time.Sleep(50 * time.Microsecond)
+		if spins++; spins < 3000 {
+			runtime.Gosched()
+		} else {
+			time.Sleep(50 * time.Microsecond)
+		}
 	}
 }
